@@ -128,6 +128,13 @@ def correspond(ctx):
     dis += kernel_level(ctx, rng, names)
     from . import c05k
     dis += c05k.correspond_more(ctx, rng, names)
+    # object-history fuzzer (hist.py) with the kernels' Python source in place of the compiled code: cached objects (spline basis,
+    # Vandermonde, lazily created x) carried from one call into the next must never make a kernel index outside its arrays
+    from . import hist
+    for spec, f in hist.campaign(ctx, rng, 'oob', 40 if ctx.thorough else 14, 10 if ctx.thorough else 3, py_source=True):
+        dis.append(Disagreement('c05.fuzz', f'fuzz:oob:{spec["steps"][-1]["method"]}',
+                                f'history on one fitter (created {"without x" if spec["mode"] == "none" else "with x"}): {hist.describe(spec)[:700]} — call {f[0] + 1}: {f[2]}; '
+                                f'compiled code would access foreign memory', {'kind': 'fuzz', 'spec': spec}, True))
     return dis
 
 
@@ -346,6 +353,10 @@ def replay(ctx, data):
     from pybaselines import Baseline, polynomial as P
     r = data['replay']
     names = set(K.kernel_table())
+    if r.get('kind') == 'fuzz':
+        from . import hist
+        f = [x for x in hist.run(r['spec'], want=(), py_source=True, names=names) if x[1] == 'oob']
+        return f'call {f[0][0] + 1}: {f[0][2]}' if f else None
     if r.get('kind') == 'determine_fits':
         x = np.array(r['x'])
         n = len(x)
